@@ -35,13 +35,18 @@ def gen(tier, rng):
             t = t[:58]
         if t:
             typed.append(f"typed\ttext\t{hexs(t)}\t{rng.choice(sels)}")
-    return names + typed + hdrgen.hval_cases(rng, n, op="hvalrt") + hdrgen.cdisp_cases(rng, {"quick": 200, "search": 1000, "thorough": 5000}[tier])
+    # file names through `Attachment::new(name).body(..)` (inside a multipart): the name a reader decodes is the name given
+    from tools.props import c11 as _c11
+    att = [f"mime\tM m - 1 A {hexs(nm)} {hexs('application/octet-stream')} {hexs(b'data')}" for nm in _c11.ATT_NAMES]
+    return names + typed + att + hdrgen.hval_cases(rng, n, op="hvalrt") + hdrgen.cdisp_cases(rng, {"quick": 200, "search": 1000, "thorough": 5000}[tier])
 
 
 nontrivial = c02.nontrivial
 
 
 def shrinkable(case):
+    if case.startswith("mime"):
+        return []
     return [3] if case.startswith("typed") else [1] if case.startswith("mbox") else [2]
 
 
@@ -56,6 +61,9 @@ def distribution(cases):
             continue
         if c.startswith("mbox"):
             d["display_name"] = d.get("display_name", 0) + 1
+            continue
+        if c.startswith("mime"):
+            d["attachment_file_name"] = d.get("attachment_file_name", 0) + 1
             continue
         v = unhex(c.split("\t")[2])
         d["needs_encoding" if any(b > 126 or b < 32 for b in v) else "plain"] += 1
